@@ -1,0 +1,65 @@
+//go:build verif
+
+// Contracts for the deductive checks under /verif (comment-only; no code).
+
+package helpers
+
+// abstract view used by the layout builders
+//   childCount(n): number of children of the node under construction
+//   exhausted(db): the splitter has no more data (Done() answers true from now on)
+//@ ghost childCount(n *FSNodeOverDag) int = 0
+//@ ghost exhausted(db *DagBuilderHelper) bool
+
+//@ func (*FSNodeOverDag).NumChildren
+//@   assumed
+//@   ensures result == childCount(n) && result >= 0
+//@ func (*FSNodeOverDag).AddChild
+//@   assumed
+//@   modifies childCount(n)
+//@   ensures err == nil ==> childCount(n) == old(childCount(n)) + 1
+//@   ensures err != nil ==> childCount(n) == old(childCount(n))
+//@ func (*FSNodeOverDag).RemoveChild
+//@   assumed
+//@   modifies childCount(n)
+//@   ensures childCount(n) == old(childCount(n)) - 1
+//@ func (*FSNodeOverDag).GetChild
+//@   assumed
+//@   ensures err == nil ==> result0 != nil && fresh(result0) && childCount(result0) >= 0
+//@ func NewFSNFromDag
+//@   assumed
+//@   ensures err == nil ==> result0 != nil && fresh(result0) && childCount(result0) >= 0
+//@ func (*FSNodeOverDag).ModTime
+//@   assumed
+//@ func (*FSNodeOverDag).SetModTime
+//@   assumed
+//@ func (*DagBuilderHelper).GetDagServ
+//@   assumed
+//@ func (*FSNodeOverDag).Commit
+//@   assumed
+//@ func (*FSNodeOverDag).FileSize
+//@   assumed
+//@ func (*DagBuilderHelper).Done
+//@   assumed
+//@   ensures result == exhausted(db)
+//@ func (*DagBuilderHelper).NewFSNodeOverDag
+//@   assumed
+//@   ensures result != nil && fresh(result) && childCount(result) == 0
+//@ func (*DagBuilderHelper).Maxlinks
+//@   inline
+//@ func (*DagBuilderHelper).NewLeafDataNode
+//@   assumed
+//@   modifies exhausted(db)
+//@   ensures old(exhausted(db)) ==> exhausted(db)
+
+// FillNodeLayer adds leaves until the node has maxlinks children or the data ends
+//@ func (*DagBuilderHelper).FillNodeLayer
+//@   prop C07 C08
+//@   arith int-assumed
+//@   requires db != nil && node != nil && childCount(node) >= 0
+//@   modifies childCount(node), exhausted(db)
+//@   loop 0 invariant[grows] childCount(node) >= old(childCount(node)) && (old(exhausted(db)) ==> exhausted(db))
+//@   loop 0 invariant[bounded] childCount(node) <= old(childCount(node)) || childCount(node) <= db.maxlinks
+//@   ensures[never_shrinks] childCount(node) >= old(childCount(node))
+//@   ensures[at_most_width] childCount(node) <= old(childCount(node)) || childCount(node) <= db.maxlinks
+//@   ensures[full_or_no_data] err == nil ==> childCount(node) >= db.maxlinks || exhausted(db)
+//@   ensures[monotone_end] old(exhausted(db)) ==> exhausted(db)
